@@ -307,6 +307,9 @@ class Evaluator:
     def e_pget(self, e):
         return self.frames[-1]["params"][e[1]]
 
+    def e_pragma(self, e):
+        return self.ev(e[1])
+
     def e_ifx(self, e):
         c = P.u64(self.ev(e[1]))
         self.covmark(e, bool(c))
